@@ -75,6 +75,7 @@ def cases(tier, seed):
             if j % 3 == 2 and d >= 2:
                 cs.append({'scen': 'ttsvd', 's': dict(base, rmax=[1] + [1 + (k % 2) for k in range(d - 1)] + [1])})
                 cs.append({'scen': 'ttsvd', 's': dict(base, rmax=[1] + [50] * (d - 1) + [1])})
+                cs.append({'scen': 'ttsvd', 's': dict(base, rmax=[1] + [1 + (k % 2) for k in range(d - 1)] + [1], rmax_np=True)})
     # single precision tag, incl. one long mode (dtype-dependent thresholds scale with the unfolding size)
     for shp, pat in [([2, 2], [[0, 0], [1, 1]]), ([3, 3], [[0, 0], [1, 1], [2, 2]]), ([20000, 2], [[0, 0], [7, 1]])] + \
                     ([([3, 20000], [[0, 5], [1, 1], [2, 19999]]), ([20000, 2, 2], [[0, 0, 0], [3, 1, 1]])] if th else []):
